@@ -68,3 +68,10 @@ check(
     "Distances are an arbitrary non-negative matrix (geometry abstracted; x**2 and divisions over-approximated in the end-to-end layer); centres/inertia/KMeans are scikit-learn's; gain's main loop is not proven to reach its quotas (listed known finding for n mod k >= 2). Counterexamples are replayed through ConstraintKMeans.fit/predict on real points.",
     "DESIGN.md 3.C07",
 )
+check(
+    "C09",
+    "translation (CY2PY: Cython's parser -> Python, validated every run against the compiled extension) + bounded symbolic execution (SX, z3 NRA) of the lowered criteria and of the real Python leaf-regression code",
+    "For every (start,pos,end) triple, n<=4/5, listed sample orders and weight settings: node value = weighted mean, node/children impurities = weighted mean squared residual of the constant fit over exactly the node's / children's rows (simple and fast criteria, as polynomial identities in symbolic y), proxy and impurity_improvement formulas, children weights, update/reset == fresh init; linear criterion (unit weights): dgelss receives exactly the node's rows and targets, impurity = mean squared residual of the returned beta over those rows, 0 when rows <= coefficients. Python side: each leaf's regression sees exactly its rows, predict(row) = [row,1].beta(leaf(row)), and criterion='simple' after 'mselin' on the same instance uses the tree's prediction.",
+    "LAPACK's dgelss answers an arbitrary beta (numerics trusted); scikit-learn's splitter (max_depth/min_samples_leaf) not encoded; fully symbolic weights only for node value and children weights (impurity identities decided on rational non-uniform weight grids); reals not floats.",
+    "DESIGN.md 3.C09",
+)
